@@ -10,6 +10,7 @@ import (
 type NpmGenOpts struct {
 	Aliases bool // KnownAs requirements
 	Small   bool // 2–4 packages (small-scope stream)
+	Bundles bool // bundled (derived) packages: `P>v>q` versions with a DerivedFrom attribute
 }
 
 var npmVersionPool = []string{
@@ -213,7 +214,85 @@ func GenNpm(r *rand.Rand, o NpmGenOpts) *NpmUniverse {
 			u.Versions = append(u.Versions, nv)
 		}
 	}
+	if o.Bundles {
+		addBundles(r, u, names, vers)
+	}
 	return u.Normalize()
+}
+
+// addBundles gives some versions a bundle: for P@v a derived package `P>v>q`
+// (or `P>v>alias` when the bundle installs q under another name) with one
+// version w carrying `DerivedFrom q`, a regular requirement `P>v>q@w` on P@v
+// that represents the bundle content, and a requirement of P@v on q that the
+// bundled copy may or may not satisfy. w may be a version of q that the
+// registry does not have. Derived versions have requirements of their own and
+// (to depth 2) bundles of their own. Bundle content forms a tree (no cycles:
+// the recursion of injectDerivedFrom has no guard).
+func addBundles(r *rand.Rand, u *NpmUniverse, names []string, vers map[string][]string) {
+	var extra []NpmVersion
+	var bundle func(owner *NpmVersion, ownerName, ownerVer string, depth int)
+	bundle = func(owner *NpmVersion, ownerName, ownerVer string, depth int) {
+		q := names[r.Intn(len(names))]
+		w := npmVersionPool[r.Intn(len(npmVersionPool))]
+		if len(vers[q]) > 0 && r.Intn(5) < 3 {
+			w = vers[q][r.Intn(len(vers[q]))]
+		}
+		last := q
+		if r.Intn(7) == 0 {
+			last = "bal"
+		}
+		for _, d := range owner.Imports {
+			if d.EffName() == last || d.EffName() == q {
+				return
+			}
+		}
+		m := ownerName + ">" + ownerVer + ">" + last
+		dv := NpmVersion{Name: m, Version: w}
+		dv.Attr.Set(VerDerived, q)
+		used := map[string]bool{}
+		for j := r.Intn(3); j > 0; j-- {
+			t := names[r.Intn(len(names))]
+			if used[t] {
+				continue
+			}
+			used[t] = true
+			dv.Imports = append(dv.Imports, NpmImport{Name: t, Req: npmReq(r, vers[t], nil)})
+		}
+		if depth < 2 && r.Intn(4) == 0 {
+			bundle(&dv, m, w, depth+1)
+		}
+		extra = append(extra, dv)
+		owner.Imports = append(owner.Imports, NpmImport{Name: m, Req: w})
+		req := NpmImport{Name: q}
+		switch r.Intn(10) {
+		case 0, 1, 2:
+			req.Req = w
+		case 3, 4:
+			req.Req = "^" + w
+		case 5:
+			req.Req = "*"
+		case 6:
+			req.Req = ">=" + w
+		default:
+			req.Req = npmReq(r, vers[q], nil)
+		}
+		if last != q {
+			req.Type.Set(DepKnownAs, last)
+		} else if r.Intn(2) == 0 {
+			req.Type.Set(DepScope, "bundled")
+		}
+		owner.Imports = append(owner.Imports, req)
+	}
+	for i := range u.Versions {
+		if r.Intn(6) == 0 {
+			v := &u.Versions[i]
+			bundle(v, v.Name, v.Version, 0)
+			if r.Intn(3) == 0 {
+				bundle(v, v.Name, v.Version, 0)
+			}
+		}
+	}
+	u.Versions = append(u.Versions, extra...)
 }
 
 // NpmRegularImports mirrors what survives regularImports on bundle-free
